@@ -441,7 +441,7 @@ def replay(case):
 
 
 def main():
-    rep = report.Report(PID, "exploration")
+    rep = report.Report(PID, "fault_enumeration")
     env = Env()
     tier = rep.tier
     bl = list(blocks(tier))
